@@ -6,6 +6,8 @@ import (
 	"encoding/json"
 	"fmt"
 	"os"
+	"os/exec"
+	"strconv"
 	"strings"
 	"time"
 	"unicode/utf8"
@@ -110,6 +112,28 @@ func runCsvCase(o *Oracle, c *CsvCase, rep *Report, valid string) {
 	if got, want := schemaString(idx.GetSchema()), o.Ask("idx schema"); got != want {
 		viol("C19:schema-differs", "schema of the created index differs from the model (record i = row i, normalised header)", want, got)
 		return
+	}
+	// `updog schema -f <output>` lists every column with its number of distinct values
+	if len(rows) > 0 {
+		cmd := exec.Command(updogBin, "schema", "-f", out)
+		outb, err := cmd.CombinedOutput()
+		wantCols := map[string]int{}
+		for k, n := range statsOf(rows).distinct {
+			wantCols[k] = n
+		}
+		gotCols := map[string]int{}
+		for i, line := range strings.Split(string(outb), "\n") {
+			f := strings.Fields(line)
+			if i == 0 || len(f) != 2 {
+				continue
+			}
+			n, _ := strconv.Atoi(f[1])
+			gotCols[f[0]] = n
+		}
+		rep.Count("schema-command-runs")
+		if err != nil || fmt.Sprint(gotCols) != fmt.Sprint(wantCols) {
+			viol("C19:schema-command", "`updog schema` on the created index does not list the columns with their distinct-value counts", fmt.Sprint(wantCols), fmt.Sprintf("%v %v", gotCols, err))
+		}
 	}
 	pool := poolOf(rows)
 	r := NewRng(uint64(len(rows)) + 17)
